@@ -385,7 +385,21 @@ fn case(sub: &str) -> Option<Box<CaseFn<'static>>> {
         "reals" => Some(Box::new(reals_case)),
         "mutations" => Some(Box::new(noise_case)),
         "alloc-scaling" => Some(Box::new(scaling_case)),
+        "raw-file" => Some(Box::new(|src: &mut Src, ctx: &mut Ctx| {
+            let mut bytes = vec![];
+            while !src.exhausted() {
+                bytes.push(src.word() as u8);
+            }
+            check_bytes(&bytes, false, ctx)
+        })),
         _ => None,
+    }
+}
+/// Seed corpus for the libFuzzer campaign of the thorough tier
+pub fn dump_corpus(dir: &str) {
+    let _ = std::fs::create_dir_all(dir);
+    for (i, b) in bases().iter().enumerate() {
+        let _ = std::fs::write(format!("{}/base{:02}.gds", dir, i), &b.bytes);
     }
 }
 fn render(sub: &str, choices: &[u32]) -> Option<String> {
